@@ -15,6 +15,7 @@ import (
 	"strings"
 
 	"github.com/fatedier/frp/pkg/msg"
+	"github.com/fatedier/frp/pkg/proto/udp"
 
 	"verif/mc/drv"
 )
@@ -283,6 +284,17 @@ func main() {
 	}
 	c.Rule("exhaustive: (1) golden wire vectors for the 18 message types written by hand from the released protocol; (2) round trip of every single-field deviation over per-kind alphabets (and rotating all-extreme combinations) for every type; (3) every byte string of length <= 2, and every frame of type byte 0..255 x 12 declared lengths x 9 body shapes through msg.ReadMsg behind a counting reader; non-trivial = distinct (type, field, value) or distinct frame")
 
+	// (1b) the datagram payload inside UDPPacket is standard, padded base64 in the released protocol
+	for _, gv := range []struct{ raw, enc string }{{"", ""}, {"h", "aA=="}, {"hi", "aGk="}, {"hi!", "aGkh"}, {"\x00\xff\xfe\xfd", "AP/+/Q=="}, {"12345", "MTIzNDU="}} {
+		c.Count("golden:udp-payload:" + gv.enc)
+		pk := udp.NewUDPPacket([]byte(gv.raw), nil, &net.UDPAddr{IP: net.IPv4(1, 2, 3, 4), Port: 5})
+		if pk.Content != gv.enc {
+			c.Violate("golden", "golden:udp-payload:encode", fmt.Sprintf("UDPPacket payload %q is encoded as %q, the released protocol has %q", gv.raw, pk.Content, gv.enc), gv.raw)
+		}
+		if got, err := udp.GetContent(&msg.UDPPacket{Content: gv.enc}); err != nil || string(got) != gv.raw {
+			c.Violate("golden", "golden:udp-payload:decode", fmt.Sprintf("UDPPacket payload %q of the released protocol decodes to %q err=%v", gv.enc, got, err), gv.enc)
+		}
+	}
 	// (1) wire stability
 	seenTypes := map[byte]bool{}
 	for _, g := range gs {
